@@ -116,6 +116,8 @@ def table_value_facts(ctx, name):
             x = unmut(x[2][0])
     elif x[0] == "downcast" and x[2] == "Some":
         x = unmut(x[1])
+    elif x[0] == "field" and x[2] == 0 and unmut(x[1])[0] == "downcast" and unmut(x[1])[2] == "Some":
+        x = unmut(unmut(x[1])[1])          # payload of `MAP.get(k)` bound by a pattern / by `.ok_or(e)?`
     else:
         x = None
     if x is not None and x[0] == "call" and short(x[1]) == "HashMap::<K, V, S, A>::get":
